@@ -98,6 +98,8 @@ func (mpf Transform[T, O]) ProcessParallel(
 			// for each split, run a mapWorker
 
 			mf.mapPullProcess(output.Send().Write, opts).
+				// io.EOF means the worker cannot continue: stop the group.
+				WithErrorFilter(func(err error) error { ft.WhenCall(errors.Is(err, io.EOF), wcancel); return err }).
 				ReadAll(splits[idx].Producer()).
 				Operation(func(err error) {
 					ft.WhenCall(ers.Is(err, io.EOF, ers.ErrCurrentOpAbort), wcancel)
